@@ -61,13 +61,20 @@ def check(run):
         spill = {(s_, r_ + i_, c_ + j_) for (s_, r_, c_), ct in wb.cells.items() if ct[0] == 'a' for i_ in range(ct[1]) for j_ in range(ct[2])}
         # an array formula must lie wholly inside the overridden range or wholly outside it (a part of a spill cannot be set)
         arects = [{(s_, r_ + i_, c_ + j_) for i_ in range(ct[1]) for j_ in range(ct[2])} for (s_, r_, c_), ct in wb.cells.items() if ct[0] == 'a']
-        rngs = [r for r in rngs if all((wb.cells.get(a, ('v',))[0] in ('v', 'a')) and a not in [x[:3] for x in ov_cells] for a in cells_of_ref(r))
-                and all(not (ar & set(cells_of_ref(r))) or ar <= set(cells_of_ref(r)) for ar in arects)
-                and all(wb.cells.get(a, ('v',))[0] == 'v' or a in spill for a in cells_of_ref(r))]
+        # the range may lie over formula cells (they are overridden through it, not re-evaluated) and over cells that are
+        # also supplied on their own (with the same value: one set of supplied values)
+        rngs = [r for r in rngs if all(not (ar & set(cells_of_ref(r))) or ar <= set(cells_of_ref(r)) for ar in arects)
+                and all(wb.cells.get(a, ('v',))[0] in ('v', 'f') or a in spill for a in cells_of_ref(r))]
         if rngs and rnd.random() < 0.6:
             r = rnd.choice(rngs)
             h, w = r[2] - r[1] + 1, r[4] - r[3] + 1
             vals = [[bookgen.gen_value(rnd, 'nnnnt') for _ in range(w)] for _ in range(h)]
+            have = {x[:3]: x[3] for x in ov_cells}
+            for i in range(h):
+                for j in range(w):
+                    if (r[0], r[1] + i, r[3] + j) in have:
+                        vals[i][j] = have[(r[0], r[1] + i, r[3] + j)]
+            ov_cells = [x for x in ov_cells if x[:3] not in set(cells_of_ref(r))]
             key = '%s!%s' % (wb.sheet_id(r[0]), wb.ref_text(r))
             ov_impl[key] = [[bookrun.to_impl_value(v) for v in row] for row in vals]
             for i in range(h):
@@ -75,7 +82,7 @@ def check(run):
                     ov_cells.append((r[0], r[1] + i, r[3] + j, vals[i][j]))
             kinds.append('range')
         names = [nm for nm, (bk, e) in wb.names.items() if e[0] == 'ref' and (e[1][1], e[1][3]) == (e[1][2], e[1][4])
-                 and wb.cells.get((e[1][0], e[1][1], e[1][3]), ('v',))[0] == 'v' and (e[1][0], e[1][1], e[1][3]) not in [x[:3] for x in ov_cells]]
+                 and wb.cells.get((e[1][0], e[1][1], e[1][3]), ('v',))[0] in ('v', 'f') and (e[1][0], e[1][1], e[1][3]) not in [x[:3] for x in ov_cells]]
         if names and rnd.random() < 0.6:
             nm = rnd.choice(names)
             e = wb.names[nm][1]
@@ -145,6 +152,21 @@ def check(run):
             a = bad[0]
             run.violation('after %s the last solution of the model holds %s for cell %s, the calculation returned %s' % (
                 after, bookrun.show(v_last[a]), wb.key(*a), bookrun.show(v_live[a])), dict(case, cell=wb.key(*a), after=after))
+        # supplying a value through a name or a range equals supplying it to the underlying cells (where those are nodes)
+        if 'range' in kinds or 'name' in kinds:
+            try:
+                m2 = bookrun.ExcelModel().from_dict(d)
+                cellwise = {wb.key(*x[:3]): bookrun.to_impl_value(x[3]) for x in ov_cells}
+                if all(k_ in m2.dsp.nodes for k_ in cellwise):
+                    v_cells = bookrun.solution_values(wb, m2.calculate(inputs=cellwise))
+                    bad = [a for a in v_fresh if v_fresh[a] != v_cells[a]]
+                    if bad:
+                        a = bad[0]
+                        run.violation('cell %s is %s with the values supplied through %s and %s with the same values supplied cell by cell' % (
+                            wb.key(*a), bookrun.show(v_fresh[a]), '/'.join(sorted(set(kinds))), bookrun.show(v_cells[a])),
+                            dict(case, cell=wb.key(*a), cellwise={k_: str(v_) for k_, v_ in cellwise.items()}))
+            except Exception as ex:
+                run.violation('calculate with cell-by-cell inputs raised %s: %s' % (type(ex).__name__, str(ex)[:80]), case)
         diff = [a for a in v_fresh if v_fresh[a] != v_live[a]]
         if diff:
             a = diff[0]
